@@ -84,7 +84,14 @@ class VC:
         if r == z3.sat:
             m = s.model()
             model = {str(d): str(m[d]) for d in m.decls()}
-        self.obligations.append((name, "PROVED" if r == z3.unsat else ("REFUTED" if r == z3.sat else "UNDECIDED"), model, dt))
+        status = "PROVED" if r == z3.unsat else ("REFUTED" if r == z3.sat else "UNDECIDED")
+        if r == z3.unsat:
+            from . import xcheck
+            xc = xcheck.second_opinion(s)
+            model = {"xcheck": xc}
+            if xc.startswith("DISAGREE"):
+                status = "UNDECIDED"
+        self.obligations.append((name, status, model, dt))
         return r == z3.unsat
 
     def vacuity(self, name, assm):
